@@ -12,6 +12,8 @@ type loop struct {
 	continuePos []int
 	breakPos    []int
 	isRangeLoop bool
+	// Number of switch subjects currently held on the stack inside this loop
+	switchDepth int
 }
 
 func (l *loop) end() {
